@@ -7,6 +7,7 @@ EXPLANATION = ('Value-flow normal form of <MHMarkovChain as MarkovChain>::step (
                'candidate from one Proposal::sample on the pre-step state, acceptance condition '
                'p(y)+q(y->x)-p(x)-q(x->y)-ln(u) > 0 (strict), u one StandardUniform draw from the chain generator, '
                'single conditional store of y into the state, returned reference is the state.')
+FLOORS = {'obligations': 7}   # counted on the reference tree; fewer instantiated obligations is reported, never passed silently
 TECHNIQUE = 'value-flow normal form vs specification table'
 
 A = '<MHMarkovChain as MarkovChain>::step'
